@@ -20,7 +20,7 @@ PREAMBLE = ("From Coq Require Import ZArith.\n"
             "From PK Require Import Lib.Bytes Lib.Check Wire.Json Wire.gen.JsonSchema Wire.JsonCheck.\n"
             "Open Scope N_scope.\n")
 COQ_TARGETS = ["theories/Wire/JsonCheck.vo", "theories/Wire/JsonFacts.vo", "theories/Wire/JsonLaws.vo"]
-HARNESS_BINS = ["json"]
+HARNESS_BINS = ["json", "ceremony"]
 COQ_FILES = ["theories/Lib/Base64.v", "theories/Lib/Base64Facts.v", "theories/Wire/Json.v",
              "theories/Wire/JsonFacts.v", "theories/Wire/JsonLaws.v", "theories/Props/C14.v"]
 
@@ -669,6 +669,45 @@ def _t(label, t0=[None]):
         if t0[0] is None: t0[0] = now
 
 
+def client_data_through_client(run):
+    """the client data the CLIENT emits (Client::register / authenticate with DefaultClientDataWithExtra): member order in the
+    emitted text - type, challenge, origin, crossOrigin, then the caller's extra members in their original order (a key that
+    collides with a fixed member is the caller's business: it stays where it was)"""
+    import ceremony
+    from ceremony import client_scenario, reg_op, auth_op, mk_passkey
+    rng = run.rng
+    cid = bytes([0x4E]) * 16
+    content = [mk_passkey(rng, "example.com", cred_id=cid, keyidx=0)]
+    extras = [
+        {"androidPackageName": "com.example.app", "origin": "android:apk-key-hash:abc", "topOrigin": "https://top.example", "payment": {"total": 5}},
+        {"zeta": 1, "alpha": [1, 2], "type": "x", "challenge": "y", "mid": None, "crossOrigin": True, "omega": "\u00e9"},
+        {"b": 1, "a": 2}, {"only": "one"}, {"k%d" % i: i for i in (9, 3, 7, 1, 8, 2)},
+        {"origin": 1, "x1": 1, "x2": 2, "x3": 3},
+    ]
+    scs = []
+    for ex in extras:
+        scs.append(client_scenario(store_kind="ref", content=content, user={"script": [{"presence": True, "verification": True}] * 2},
+                                   ops=[reg_op(rng, cd={"mode": "extra", "extra": ex}), auth_op(rng, allow=[cid], cd={"mode": "extra", "extra": ex})]))
+    binary = common.harness_build("ceremony")
+    outs = ceremony.run_scenarios(binary, scs)
+    fails, n = [], 0
+    for sc, out in zip(scs, outs):
+        if "ops" not in out:
+            fails.append((sc, out, "the client ceremony crashed")); continue
+        for op, obs in zip(sc["ops"], out["ops"]):
+            if "ok" not in obs["result"]:
+                fails.append((sc, obs, "a ceremony with extra client data members failed: %s" % json.dumps(obs["result"])[:100])); continue
+            n += 1
+            text = bytes.fromhex(obs["result"]["ok"]["client_data_json"]).decode("utf-8")
+            keys = [k for k, _ in json.JSONDecoder(object_pairs_hook=lambda kv: kv).decode(text)]
+            want = ["type", "challenge", "origin", "crossOrigin"] + list(op["cd"]["extra"].keys())
+            if keys != want:
+                fails.append((sc, obs, "client data members are %s, expected the four fixed members followed by the extra members in their original order %s" % (keys, want)))
+    for sc, obs, why in fails[:2]:
+        run.violation({"kind": "client data emitted by the client: " + why, "scenario": sc, "observed": obs})
+    return {"client_emitted_client_data": n, "client_emitted_failures": len(fails)}
+
+
 def check(run):
     _t("start")
     broken = []        # ties that broke before the correspondence: the search for a failing input still runs
@@ -988,6 +1027,7 @@ def check(run):
     # ---- verdict
     def payload(c, os_):
         return {"tag": c["tag"], "requests": c["reqs"], "observed": [{k: v for k, v in o.items() if k != "tree"} for o in os_]}
+    through_client = client_data_through_client(run)
     for c, os_ in crashed[:3]:
         run.violation(dict(payload(c, os_), kind="the implementation panicked / produced no JSON on a generated case"))
     for i in res["oracle"][:3]:
@@ -1034,6 +1074,7 @@ def check(run):
         keys = [kv[0] for kv in o[0]["tree"]["ok"]["o"]]
         dup += len(keys) != len(set(keys))
     n_lem = common.count_lemmas(COQ_FILES) if not broken else 0
+    run.cov.update(through_client)
     run.cov.update({
         "obligations": n_lem, "discharged": n_lem,
         "checker_cmd": "make -C coq theories/Props/C14.vo (coqc 8.16.1, full .vo build) + hygiene gate + Print Assumptions; " + coqchk,
